@@ -9,6 +9,7 @@ import Mathlib.Tactic.NormNum
 import PdbVerif.Gen.Score
 import PdbVerif.Spec.C12
 import PdbVerif.Proofs.Num
+import PdbVerif.Proofs.Float
 
 set_option linter.unusedVariables false
 set_option linter.unusedTactic false
@@ -91,8 +92,8 @@ theorem capri_concrete (f l i : Rat) :
 /-! ### DockQ -/
 
 /-- What the theorems assume of the rounding applied after every float operation.  `id` (real
-    arithmetic) satisfies it (`flok_id`); IEEE round-to-nearest does too (monotone, exact on small
-    integers) — that instance is part of the trusted base, not proved here. -/
+    arithmetic) satisfies it (`flok_id`), and so does IEEE binary64 round-to-nearest-even as modelled by
+    `Py.toDouble` (`flok_toDouble`, proved in Proofs/Float.lean; subnormals and overflow are outside that model). -/
 structure FlOK (fl : ℚ → ℚ) : Prop where
   mono : ∀ {x y : ℚ}, x ≤ y → fl x ≤ fl y
   fix0 : fl 0 = 0
@@ -250,5 +251,37 @@ theorem dockq_monotone {fl : ℚ → ℚ} (h : FlOK fl) {f f' l l' i i' d1 d2 : 
 example : Gen.compute_DockQScore id (1/2) 2 1 (17/2) (3/2) =
     .ok (Py.round (third * ((1/2 : ℚ) + 1 / (1 + (2 / (17/2)) * (2 / (17/2))) + 1 / (1 + (1 / (3/2)) * (1 / (3/2))))) 6) :=
   dockq_formula (1/2) (by norm_num) (by norm_num) (by norm_num) (by norm_num)
+
+/-! ### DockQ in IEEE binary64 -/
+
+/-- IEEE binary64 round-to-nearest-even (`Py.toDouble`, the function the driver executes and the
+    harness validates bit-exactly against CPython) meets every assumption of `FlOK`: it is monotone
+    on the whole of ℚ and exact on 0, 1, 2, 3 (`Proofs/Float.lean`).  So the binary64 instance is
+    proved, not trusted (subnormals/overflow are outside `Py.toDouble`, as stated in `Py/Float.lean`). -/
+theorem flok_toDouble : FlOK Py.toDouble :=
+  ⟨fun h => Py.toDouble_mono h, Py.toDouble_zero, Py.toDouble_one, Py.toDouble_two, Py.toDouble_three⟩
+
+/-- **Range, binary64.**  With every operation rounded to the nearest double the score lies in [0,1]. -/
+theorem dockq_range_binary64 {f l i d1 d2 : ℚ}
+    (hf0 : 0 ≤ f) (hf1 : f ≤ 1) (hl : 0 ≤ l) (hi : 0 ≤ i) (hd1 : 0 < d1) (hd2 : 0 < d2) :
+    ∃ v, Gen.compute_DockQScore Py.toDouble f l i d1 d2 = .ok v ∧ 0 ≤ v ∧ v ≤ 1 :=
+  dockq_range flok_toDouble hf0 hf1 hl hi hd1 hd2
+
+/-- **Monotone, binary64.**  With every operation rounded to the nearest double the score never
+    decreases when Fnat grows or an RMSD shrinks. -/
+theorem dockq_monotone_binary64 {f f' l l' i i' d1 d2 : ℚ}
+    (hf : f ≤ f') (hl' : 0 ≤ l') (hl : l' ≤ l) (hi' : 0 ≤ i') (hi : i' ≤ i) (hd1 : 0 < d1) (hd2 : 0 < d2) :
+    ∃ v v', Gen.compute_DockQScore Py.toDouble f l i d1 d2 = .ok v ∧
+            Gen.compute_DockQScore Py.toDouble f' l' i' d1 d2 = .ok v' ∧ v ≤ v' :=
+  dockq_monotone flok_toDouble hf hl' hl hi' hi hd1 hd2
+
+/-- Non-vacuity: concrete arguments meet the hypotheses of both binary64 theorems. -/
+example : ∃ v v', Gen.compute_DockQScore Py.toDouble (1/2) 2 1 (17/2) (3/2) = .ok v ∧
+    Gen.compute_DockQScore Py.toDouble (3/5) 1 (1/2) (17/2) (3/2) = .ok v' ∧ v ≤ v' :=
+  dockq_monotone_binary64 (by norm_num) (by norm_num) (by norm_num) (by norm_num) (by norm_num)
+    (by norm_num) (by norm_num)
+
+example : ∃ v, Gen.compute_DockQScore Py.toDouble (1/2) 2 1 (17/2) (3/2) = .ok v ∧ 0 ≤ v ∧ v ≤ 1 :=
+  dockq_range_binary64 (by norm_num) (by norm_num) (by norm_num) (by norm_num) (by norm_num) (by norm_num)
 
 end Props.C12
